@@ -67,6 +67,8 @@ struct MPath {
     std::vector<MProp> props;
     int impl = 0;        // 0 FlexPath, 1 RobustPath
     bool simple = true;  // false: written as polygons (region-compared; unique tag in cell)
+    dg_t taper = 0;      // non-simple FlexPath: half-width at the far end (0 = constant width)
+    dg_t bend = 0;       // non-simple FlexPath: radius of circular bends at the corners (0 = plain joins)
     int nelem = 1;       // parallel elements (a simple path with several: straight axis-parallel spine only)
     dg_t sep = 0;        // separation between elements
     int join = 0;        // 0 natural, 1 miter, 2 bevel, 3 round
@@ -306,9 +308,12 @@ inline J to_json(const MPath& p) {
         j.set("nelem", p.nelem);
         j.set("sep", p.sep);
         j.set("join", p.join);
+        if (p.taper) j.set("taper", p.taper);
+        if (p.bend) j.set("bend", p.bend);
     } else if (p.nelem > 1) {
         j.set("nelem", p.nelem);  // several parallel elements, each written as a PATH of its own
         j.set("sep", p.sep);
+        if (p.bend) j.set("bend", p.bend);
     }
     return j;
 }
@@ -327,6 +332,8 @@ inline MPath path_from(const J& j) {
     p.impl = (int)j.geti("impl");
     p.simple = j.getb("simple", true);
     p.nelem = (int)j.geti("nelem", 1);
+    p.taper = j.geti("taper");
+    p.bend = j.geti("bend");
     p.sep = j.geti("sep");
     p.join = (int)j.geti("join");
     return p;
